@@ -825,7 +825,7 @@ func (g *Gen) refsStep() {
 			if ct == "dockm" {
 				cfgmt = "dcfg"
 			}
-			name = g.defBody("image", []string{"mt=" + ct, "cfg=sha256:c1", "cfgmt=" + cfgmt, "layers=", "subj=" + sj, "at=" + g.pick([]string{"", "x/a", "x/b"}), "ann=" + g.pick([]string{"", "k=v", "n=" + strconv.Itoa(g.bodyN)})})
+			name = g.defBody("image", []string{"mt=" + ct, "cfg=sha256:c1", "cfgmt=" + cfgmt, "layers=", "subj=" + sj, "at=" + g.pick([]string{"", "x/a", "x/b"}), "ann=" + g.pick([]string{"", "k=v", "n=" + strconv.Itoa(g.bodyN), "org.opencontainers.image.ref.name=foo", "n=" + strconv.Itoa(g.bodyN) + ";org.opencontainers.image.ref.name=foo"})})
 		}
 		ref := g.pick([]string{"t1", "t2", "t3", "sha256:" + name, "sha256:" + name, "sha512:" + name})
 		out := g.emit(fmt.Sprintf("MPUT %s %s ct=%s body=%s", repo, ref, ct, name))
@@ -836,9 +836,16 @@ func (g *Gen) refsStep() {
 				g.subjects = append(g.subjects, "sha256:"+name) // referrers of referrers
 			}
 		}
-	case 6: // delete by digest
+	case 6: // delete by digest; sometimes the same manifest is pushed again afterwards (the referrers list returns to an earlier value)
 		if len(g.manIn[repo]) > 0 {
-			g.emit(fmt.Sprintf("MDEL %s %s%s", repo, g.pick([]string{"sha256:", "sha256:", "sha512:"}), g.pick(g.manIn[repo])))
+			name := g.pick(g.manIn[repo])
+			out := g.emit(fmt.Sprintf("MDEL %s %s%s", repo, g.pick([]string{"sha256:", "sha256:", "sha512:"}), name))
+			if strings.HasPrefix(out, "202 ") && g.r.Intn(2) == 0 {
+				if g.r.Intn(2) == 0 {
+					g.emit(fmt.Sprintf("REFS %s %s", repo, g.pick(append([]string{"sha256:?2"}, g.subjects...))))
+				}
+				g.emit(fmt.Sprintf("MPUT %s %s ct=%s body=%s", repo, g.pick([]string{"sha256:" + name, "t1", "t3"}), g.manMT[name], name))
+			}
 		}
 	case 7: // delete a tag
 		g.emit(fmt.Sprintf("MDEL %s %s", repo, g.pick([]string{"t1", "t2", "t3"})))
@@ -872,6 +879,15 @@ func (g *Gen) refsStep() {
 				l2 += line[i:]
 			}
 			out = g.emit(l2 + " cache=" + cache + " page=" + page)
+			// the page just beyond the last one, under the same filter (cached pages) and under a filter not used
+			// before (the response is read and split again): an out-of-range page number falls back to the first page
+			if !strings.Contains(out, "link=next(cache=") && tr == repo && tsj == sj && g.r.Intn(2) == 0 {
+				if pn, err := strconv.Atoi(page); err == nil {
+					beyond := strconv.Itoa(pn + 1)
+					g.emit(l2 + " cache=" + cache + " page=" + beyond)
+					g.emit(fmt.Sprintf("REFS %s %s at=%s cache=%s page=%s", repo, sj, g.pick([]string{"zz", "x/a", "x/b", "cfg"}), cache, g.pick([]string{beyond, page, strconv.Itoa(pn + 2)})))
+				}
+			}
 		}
 		if g.r.Intn(4) == 0 {
 			g.emit(line + " cache=" + g.pick([]string{"sha256:?9", "bad:1", sj}) + " page=" + g.pick([]string{"1", "2", "-1", "x", "0"}))
@@ -921,9 +937,32 @@ func (g *Gen) rawStep() {
 
 // ---- isolation profile: the same contents and session ids used across repository names
 
+// traversalIndex: a document whose child (or config) "digest" is a relative path; when it is acknowledged the child is
+// asked for by a read that prefers the child's media type
+func (g *Gen) traversalIndex(repo string) {
+	bad := g.pick([]string{"bad:6", "bad:7"})
+	var name, ct string
+	if g.r.Intn(3) == 0 {
+		ct = "ocim"
+		name = g.defBody("image", []string{"mt=ocim", "cfg=" + bad, "cfgmt=cfg", "layers=", "subj=", "at=", "ann="})
+	} else {
+		ct = g.pick([]string{"ocii", "dockl"})
+		name = g.defBody("index", []string{"mt=" + ct, "children=ocim/" + bad + "/13", "subj=", "at=", "ann="})
+	}
+	tag := g.pick([]string{"t1", "t2"})
+	if out := g.emit(fmt.Sprintf("MPUT %s %s ct=%s body=%s", repo, tag, ct, name)); strings.HasPrefix(out, "201 ") {
+		g.emit(fmt.Sprintf("MGET %s %s accept=ocim", repo, tag))
+		g.emit(fmt.Sprintf("MGET %s %s accept=ocim,ocii,dockl", repo, tag))
+	}
+}
+
 func (g *Gen) isolationStep(offs map[int]int, recv map[int]string) {
 	repo := g.pick(g.repos)
 	other := g.pick(g.repos)
+	if g.r.Intn(14) == 0 {
+		g.traversalIndex(g.pick([]string{"r1", "r1", "r2"}))
+		return
+	}
 	switch g.r.Intn(12) {
 	case 0, 1:
 		g.pushBlob(repo)
